@@ -179,11 +179,20 @@ def run(chk, prog, tier):
                     if l.get("kind") == "MemberExpr" and l.get("name") == "offset" and r.get("kind") == "CallExpr" and callee_name(r) == roles.driver:
                         okk = True
             chk.require(okk, "E4", "E4/store/%s" % fn, loc_str(f), "%s stores the driver's result into <instance>->offset" % fn, "no such store")
+    # the line splitter: a terminator ends the line, what follows it is left for the next call; progress
+    from valib import scan as SC
+    SC.noswallow_rule(chk, prog, roles)
+    SC.progress_rule(chk, prog, roles)
+    SC.driver_advance_rule(chk, prog, roles)
     chk.explanation = (
         "Non-interference argument: (E1) the per-line record is fully zeroed every iteration and only the text cursor and the "
         "write position are carried across lines; (E2) no mutable static state besides the idempotent index tables; (E3) the "
         "encoder only stores to its destination and never sees the instance, so bytes do not depend on prior buffer contents or "
         "position; (E4) the position starts at offset, is returned and stored back. Hence per-line code is a function of (line "
         "text, option bits). (COVER) every encoder function writes exactly the leading bytes "
-        "whose count it returns (symbolic write-coverage: no byte below the returned length keeps old buffer contents). NOT decided: "
-        "that the line splitter consumes exactly one line per iteration for every text; equality in the chunk modes.")
+        "whose count it returns (symbolic write-coverage: no byte below the returned length keeps old buffer contents). (LINE/PROGRESS/ADVANCE) a "
+        "prefix-concrete abstract interpretation of the line parser and filter (first two characters fixed per character class) shows "
+        "that a terminator in first position consumes exactly itself, a terminator in second position ends the line there, every "
+        "non-failing call consumes at least one character, and the driver advances by exactly the reported count. NOT decided: "
+        "terminators deeper than the second character of a line (covered only through the loop structure being position-independent); "
+        "equality in the chunk modes.")
